@@ -278,6 +278,29 @@ def run(rep: Report, tier: str) -> None:
                     "operator_classes": ncls,
                     "declared_pairs": {f"{rev.get(k[0])}/{rev.get(k[1])}": len(v) for k, v in pairs.items()},
                     "commutative_pairs": {f"{rev.get(k[0])}/{rev.get(k[1])}": v for k, v in commutative_pairs.items()}}
+    # ---- R11.6 (cont.): memoised helpers on the promotion path must not hand out shared mutable results ----
+    CACHE = {"lru_cache", "cache", "functools.lru_cache", "functools.cache"}
+    ncache = 0
+    for f_ in P.iter_functions():
+        if not f_.module.name.startswith("vtlengine.DataTypes"):
+            continue
+        if not any(d in CACHE or d.split(".")[-1] in CACHE for d in f_.decorators):
+            continue
+        ncache += 1
+        for r_ in walk_no_nested(f_.node):
+            if not isinstance(r_, ast.Return) or r_.value is None:
+                continue
+            v = r_.value
+            mutable = isinstance(v, (ast.Set, ast.List, ast.Dict, ast.SetComp, ast.ListComp, ast.DictComp)) or \
+                (isinstance(v, ast.Call) and isinstance(v.func, ast.Attribute) and v.func.attr in ("intersection", "union", "difference", "symmetric_difference", "copy")) or \
+                (isinstance(v, ast.Call) and isinstance(v.func, ast.Name) and v.func.id in ("set", "list", "dict")) or \
+                (isinstance(v, ast.BinOp) and isinstance(v.op, (ast.BitAnd, ast.BitOr, ast.Sub)))
+            rep.instance("R11.6", f"memo-result/{f_.name}", nontrivial=True)
+            if mutable:
+                rep.add(Finding("R11.6", f"R11.6/memo-result/{f_.qualname}", f_.module.rel, r_.lineno, f_.qualname,
+                                f"{f_.name} is memoised and returns a mutable container (`{src(v)[:60]}`): every caller gets the SAME object, and the promotion functions "
+                                f"edit the set they get (`discard`, `pop`), so the first call empties the cached entry and later promotions of the same pair give a different verdict"))
+    rep.instance("R11.6", "memoised-helpers-in-DataTypes", nontrivial=False, sample=ncache)
     rep.assumptions = ["each operator's declared type_to_check is taken as given (no in-repo oracle says which type an "
                        "operator should admit)", "docs/data_types.rst is the oracle for the implicit table"]
     rep.floor("decision-table cells", ncell, 1800)
